@@ -173,6 +173,12 @@ class Rule_CP01(BaseRule):
         ):
             return [LintResult(memory=context.memory)]
 
+        # Some dialects have compound operators made of several keywords (e.g.
+        # Oracle's MULTISET EXCEPT) which share the "binary_operator" type. They
+        # can't be edited as a whole; their keywords are visited individually.
+        if context.segment.segments:
+            return [LintResult(memory=context.memory)]
+
         # Used by CP03 (that inherits from this rule)
         # If it's a qualified function_name (i.e with more than one part to
         # function_name). Then it is likely an existing user defined function (UDF)
